@@ -447,6 +447,14 @@ func vfC03Run(t *testing.T, dir string, c *vfC03Case) (violation string, notes [
 					continue
 				}
 				for _, wire := range []bool{false, true} { // second pass: alias entry cached, composition from cache
+					if wire && !same && c.Dim != "unicode-fold" {
+						// the first pass resolved the target and stored it under its key; put the colliding foreign entry back
+						// there, so that the byte-composed chase meets it at the hop
+						if st.VerifPlantCollision(dns.Question{Name: c.Q1.Name, Qtype: c.Q1.Qtype, Qclass: c.Q1.Qclass}, c.Q1.CD, c.Q1.scope(),
+							dns.Question{Name: c.Q2.Name, Qtype: c.Q2.Qtype, Qclass: c.Q2.Qclass}, c.Q2.CD, c.Q2.scope()) {
+							notes = append(notes, "planted-at-chase-hop")
+						}
+					}
 					m, n := ask(a, wire, 5)
 					if m == nil {
 						continue
